@@ -11,10 +11,10 @@ RULES = {
               'as_polytope/as_function/new/view/to_owned (field-wise), convert_to per PolyRepr arm',
     'C16.R2': 'named constructors: identity, zeros, constant, unit, zero_idx, sum, subtraction, rotation, scaling, uniform_scaling, translation',
 }
-FLOORS = {'C16.R1': 17, 'C16.R2': 11}
+FLOORS = {'C16.R1': 18, 'C16.R2': 12}
 EXPLANATION = ('Each kernel is single-path; its returned value is a polynomial in the operands, and polynomial identities over matrices of all sizes are decidable by '
                'normal-form comparison. Constructor forms (base matrix + point writes) are compared entry-wise with the documented meaning.')
-DOES_NOT_DECIDE = 'slice (NaN-dependent map), from_row_iter/remove_rows iterator plumbing (C15), % semantics beyond element-wise, floating-point rounding'
+DOES_NOT_DECIDE = 'from_row_iter/remove_rows iterator plumbing (C15), % semantics beyond element-wise, floating-point rounding'
 TRUSTED = ['semantics of ndarray dot/+/-/neg/t/concatenate/eye/zeros/ones/from_diag/from_elem as interpreted in affcheck/kernel.py']
 
 ZERO, ONE = Poly.zero(), Poly.const(1)
@@ -66,6 +66,7 @@ def run(ctx):
     convert_to(ctx, F)
     rows(ctx, F)
     constructors(ctx, F)
+    slice_ctor(ctx, F)
 
 
 def convert_to(ctx, F):
@@ -232,6 +233,31 @@ def constructors(ctx, F):
         R, ret = kernel_return(F, b)
         ok = is_call(ret, 'AffFuncBase::scaling') and is_call(ret[2][0], 'ArrayBase::from_elem') and ret[2][0][2] == (('param', 'dim'), ('param', 'scalar'))
         (ctx.ok if ok else ctx.bad)('C16.R2', 'AffFuncBase::uniform_scaling', 'scaling(from_elem(dim, scalar))' if ok else 'uniform_scaling is not scaling by the constant vector: %s' % fmt(ret), b.span)
+
+
+def slice_ctor(ctx, F):
+    """slice(ref): f(x)[i] = x[i] where ref[i] is NaN, ref[i] otherwise: matrix diag(mask) with mask 1 on NaN / 0 else, bias 0 on NaN / ref else."""
+    b = ctx.body('C16.R2', 'AffFuncBase::slice')
+    if b is None:
+        return
+    R, ret = kernel_return(F, b)
+    ok = is_call(ret, 'AffFuncBase::from_mats') and is_call(ret[2][0], 'ArrayBase::from_diag') and is_call(ret[2][0][2][0], 'ArrayBase::map') and is_call(ret[2][1], 'ArrayBase::map') \
+        and ret[2][0][2][0][2][0] == ('param', 'reference_point') and ret[2][1][2][0] == ('param', 'reference_point')
+    tables = []
+    if ok:
+        for clo in (ret[2][0][2][0][2][1], ret[2][1][2][1]):
+            cb = F.closure(clo[1])
+            Rc = Resolver(cb)
+            tab = {}
+            from ..mir import ret_defs
+            for i, v, _sp in ret_defs(cb, Rc):
+                nan = [l[0] for l in literals(cb, Rc, i) if is_call(l[1], 'Float::is_nan')]
+                if nan:
+                    tab[nan[0]] = 'one' if is_call(v, 'One::one') else ('zero' if is_call(v, 'Zero::zero') else ('x' if v[0] == 'param' else fmt(v)))
+            tables.append(tab)
+        ok = tables == [{'true': 'one', 'false': 'zero'}, {'true': 'zero', 'false': 'x'}]
+    (ctx.ok if ok else ctx.bad)('C16.R2', 'AffFuncBase::slice', 'diag(1 where NaN else 0) x + (0 where NaN else ref): NaN axes are kept, the others fixed' if ok else
+                                'slice does not keep exactly the NaN axes and fix the others to the reference value: %s' % tables, b.span)
 
 
 def strip_call_site(v):
